@@ -278,13 +278,20 @@ static unsigned int assemble_instr(struct instr *instruc, unsigned char ptr[]) {
 unsigned int nop_padding(uint8_t *buf, unsigned int nop_pad_len) {
 
   uint8_t *ptr = buf;
-  // find nop instruction of a specified length
-  const uint8_t *nop_to_use = FIXED_NOP_LENGTH[nop_pad_len - 1];
-  unsigned int j = 0;
-  // assemble nop instruction
-  for (unsigned i = 0; i < nop_pad_len; i++) {
-    *(ptr + j) = nop_to_use[i];
-    j++;
+  const unsigned int longest_nop =
+      sizeof(FIXED_NOP_LENGTH) / sizeof(FIXED_NOP_LENGTH[0]);
+  unsigned int remaining = nop_pad_len;
+  // the gap may be longer than the longest nop: pad it piece by piece
+  while (remaining > 0) {
+    unsigned int piece = remaining;
+    if (piece > longest_nop)
+      piece = longest_nop;
+    // find nop instruction of a specified length
+    const uint8_t *nop_to_use = FIXED_NOP_LENGTH[piece - 1];
+    // assemble nop instruction
+    for (unsigned i = 0; i < piece; i++)
+      *ptr++ = nop_to_use[i];
+    remaining -= piece;
   }
   return nop_pad_len;
 }
